@@ -46,3 +46,59 @@ Theorem c15_disappearance_is_logged_deletion : forall now d s d' lg,
   forall u, In u (tree_uuids (db_root d)) ->
     In u (tree_uuids (db_root d')) \/ In (Ev EntryDeleted u) lg \/ In (Ev GroupDeleted u) lg.
 Proof. exact merge_conserves. Qed.
+
+(* ---------------- the deletion phase as a whole (db/MergeDelTree.v, MergeDel.v) ----------------
+   [doomed] is defined by recursion over the TREE only: an entry is doomed iff the destination has no
+   tombstone for it and the source has one strictly newer than its last modification; a group iff the
+   same holds for it AND all its children are doomed.  For every tree with pairwise distinct UUIDs,
+   every tombstone list of any length, order and multiplicity, the deletion phase returns exactly
+   the tree with the doomed nodes pruned; hence the result does not depend on the order of the
+   source's tombstones, and a tombstone is recorded exactly for the removed nodes. *)
+From KP Require Import MergeDelTree MergeDel.
+Theorem c15_deletion_phase_is_prune : forall now root deleted src root' deleted' lg,
+  uuids_unique (children_of root) ->
+  merge_deletions now root deleted src = Ok (root', deleted', lg) ->
+  root' = prune now deleted src root.
+Proof. exact merge_deletions_prune. Qed.
+
+Theorem c15_entry_deleted_iff : forall now root deleted src root' deleted' lg,
+  uuids_unique (children_of root) ->
+  merge_deletions now root deleted src = Ok (root', deleted', lg) ->
+  forall e, In (NE e) (all_nodes root) ->
+  ~ In (e_uuid e) (all_uuids root') <->
+  deleted_contains deleted (e_uuid e) = false /\
+  (exists o, In o src /\ d_uuid o = e_uuid e /\ (lm_val now (e_times e) < d_time o)%Z).
+Proof. exact entry_deleted_iff. Qed.
+
+Theorem c15_group_deleted_iff : forall now root deleted src root' deleted' lg,
+  uuids_unique (children_of root) ->
+  merge_deletions now root deleted src = Ok (root', deleted', lg) ->
+  forall i c, In (NG i c) (all_nodes root) ->
+  ~ In (gi_uuid i) (all_uuids root') <->
+  deleted_contains deleted (gi_uuid i) = false /\
+  (exists o, In o src /\ d_uuid o = gi_uuid i /\ (lm_val now (gi_times i) < d_time o)%Z) /\
+  (forall ch, In ch c -> ~ In (uuid_of ch) (all_uuids root')).
+Proof. exact group_deleted_iff. Qed.
+
+Theorem c15_order_of_tombstones_irrelevant : forall now root deleted s1 s2,
+  uuids_unique (children_of root) -> Permutation.Permutation s1 s2 ->
+  exists r d1 l1 d2 l2,
+    merge_deletions now root deleted s1 = Ok (r, d1, l1) /\
+    merge_deletions now root deleted s2 = Ok (r, d2, l2).
+Proof. exact merge_deletions_order_independent_total. Qed.
+
+Theorem c15_tombstone_recorded_iff : forall now root deleted src root' deleted' lg,
+  uuids_unique (children_of root) ->
+  merge_deletions now root deleted src = Ok (root', deleted', lg) ->
+  forall u, deleted_contains deleted' u = true <->
+    deleted_contains deleted u = true \/ (In u (all_uuids root) /\ doomed_uuid now deleted src root u = true).
+Proof. exact tombstone_recorded_iff. Qed.
+
+(* and within a whole merge: the final tree is the pruned output of the group phase *)
+Theorem c15_merge_deletion_phase : forall now d s d' lg,
+  uuids_unique (db_children d) -> merge now d s = Ok (d', lg) ->
+  exists root1 lg1,
+    merge_group now (db_deleted d) [] (db_root s) false (db_root d) = Ok (root1, lg1)
+    /\ uuids_unique (children_of root1)
+    /\ db_root d' = prune now (db_deleted d) (db_deleted s) root1.
+Proof. exact merge_deletion_phase. Qed.
